@@ -7,7 +7,7 @@ from .. import gens, ref, util
 from ..core import Part
 
 PROPERTY = "C03"
-RULE = ("enum: every composition (n+, n-, n0) with N<=27 (quick) / N<=44 (thorough), each presented through 2 random arrangements and one segregated (block) arrangement, "
+RULE = ("enum: every composition (n+, n-, n0) with N<=25 (quick) / N<=44 (thorough), each presented through 2 random arrangements and one segregated (block) arrangement, "
         "seed-chosen arrangements and spellings; hyp: random compositions to 120 (quick) / 300 (thorough) residues with "
         "boosted regime boundaries (n0 in 16..20, n+ = n-, equal blocks, single minority charge), 2 presentations each. "
         "maximisers-after-kappa: every composition with 5<=N<=10/13 at its brute-forced delta-maximiser, queried after get_kappa() on the same object; long-neighbours: 2-4 compositions of one length 101..160 differing by one residue, analysed one after another in the same process; random cases <=40 residues may follow a warm-up history. Oracle: (i) all presentations return the same value; (ii) get_deltaMax(True) returns (v, s) with v equal to the plain "
@@ -19,7 +19,7 @@ ASSUMPTIONS = ["vlc/ref.py:family transcribes the documented four-regime search 
                "float tolerance 1e-9 relative"]
 TECHNIQUE = ("exhaustive enumeration of compositions + Hypothesis property testing; oracle = exact-rational maximum over the "
              "documented candidate family, attainment check on the returned permutant, presentation-invariance (metamorphic)")
-LEVEL_TEXT = ("Exploration: complete over every composition up to N=27 (quick) / 44 (thorough) x 3 presentations, sampled to 300 "
+LEVEL_TEXT = ("Exploration: complete over every composition up to N=25 (quick) / 44 (thorough) x 3 presentations, sampled to 300 "
               "residues with boosted regime boundaries; value, attainment and composition-only dependence all asserted.")
 LEVEL_NOTE = "Trusts vlc/ref.py:family/delta; tolerance 1e-9; nothing claimed beyond explored compositions."
 
@@ -66,7 +66,7 @@ def mk_case(P, M, Z, rnd, k):
 
 def enum_cases(tier, seed):
     rnd = random.Random(seed)
-    hi = 27 if tier == "quick" else 44
+    hi = 25 if tier == "quick" else 44
     for P, M, Z in util.all_compositions(hi):
         yield mk_case(P, M, Z, rnd, 3)
 
@@ -112,5 +112,5 @@ def parts(tier):
              examples={"quick": 800, "thorough": 6400}, shards={"quick": 16, "thorough": 16}),
         Part("enum-maximisers-after-kappa", "enum", check=check_comp, cases=maximiser_cases, exhaustive=True, shards={"quick": 8, "thorough": 16}),
         Part("hyp-long-neighbours", "hyp", check=check_neighbours, strategy=lambda t: neighbour_case(), shrink=False,
-             examples={"quick": 96, "thorough": 1600}, shards={"quick": 16, "thorough": 16}),
+             examples={"quick": 64, "thorough": 1600}, shards={"quick": 16, "thorough": 16}),
     ]
